@@ -35,3 +35,7 @@ pub mod uds;
 pub mod testing;
 
 pub use s2n_quic_core::dc::{Version, SUPPORTED_VERSIONS};
+
+#[cfg(all(aws_s2n_quic_verif, test, not(kani)))]
+#[path = "/verif/harness/shim/kani.rs"]
+mod kani;
